@@ -187,8 +187,14 @@ func (ms *Modules) resolveIdentities() []error {
 				break
 			}
 		}
+		// Identities of different modules may have the same name: order
+		// those by the name of the module they belong to, so that the
+		// result does not depend on the order in which the map is walked.
 		sort.SliceStable(newValues, func(j, k int) bool {
-			return newValues[j].Name < newValues[k].Name
+			if newValues[j].Name != newValues[k].Name {
+				return newValues[j].Name < newValues[k].Name
+			}
+			return module(newValues[j]).Name < module(newValues[k]).Name
 		})
 		i.Identity.Values = newValues
 	}
